@@ -27,7 +27,8 @@ ANCHORS = ["_division.amen_divide", "_division.local_product", "_division.Linear
            "_tt_base.TT.__rtruediv__", "_extras.elementwise_divide"]
 
 # (function, divisor, numerator): from the meaning of the operator - self / other, other / self, elementwise_divide(x, y) = x / y
-ROUTES = {"_tt_base.TT.__truediv__": ("other", "self"), "_tt_base.TT.__rtruediv__": ("self", None), "_extras.elementwise_divide": ("y", "x")}
+# positions in the parameter list: (divisor, numerator)
+ROUTES = {"_tt_base.TT.__truediv__": (1, 0), "_tt_base.TT.__rtruediv__": (0, None), "_extras.elementwise_divide": (1, 0)}
 
 
 def _derives_from(f, name, banned):
@@ -53,8 +54,10 @@ def _derives_from(f, name, banned):
 
 def rule_routing(model: Model):
     obs = []
-    for fs, (divisor, numerator) in ROUTES.items():
+    for fs, (di, ni) in ROUTES.items():
         f = model.func(fs)
+        divisor = f.params()[di]
+        numerator = f.params()[ni] if ni is not None else None
         calls = [n for n in ast.walk(f.node) if isinstance(n, ast.Call) and model.resolve(f.module, n.func) == "torchtt._division.amen_divide"]
         if not calls:
             obs.append(Ob("ROUTING", f"{fs}:ROUTING:call", ERROR, model.where(f), fs, "no call of amen_divide found"))
@@ -125,7 +128,7 @@ def check(model: Model, tier: str):
     obs += rule_enrich_width(model, "_division.amen_divide")
     fs = [model.func(a) for a in ANCHORS]
     exc = {("_division.amen_divide", "sig:=binop | =call:datetime.datetime.now"): "verbose timing only", ("_division.amen_divide", "sig:=binop | =call:datetime.datetime.now"): "verbose timing only",
-           ("_division.amen_divide", "sig:=binop | =call:datetime.datetime.now"): "verbose timing only", ("_division.amen_divide", "sig:for:range(nswp)"): "read only in the verbose report after a zero-sweep run",
+           ("_division.amen_divide", "sig:=binop | =call:datetime.datetime.now"): "verbose timing only", ("_division.amen_divide", "sig:for:range(_)"): "read only in the verbose report after a zero-sweep run",
            ("_division.amen_divide", "sig:unpack[1/3]=call:gmres_restart"): "verbose report of the iterative branch only", ("_division.amen_divide", "sig:unpack[2/3]=call:gmres_restart"): "verbose report of the iterative branch only",
            ("_division.amen_divide", "sig:=call:LinearOp"): "bound in the iterative branch; read under `not use_full` (same condition)",
            ("_division.amen_divide", "sig:=call:oe.contract | =call:tn.reshape"): "bound in the direct branch; read under `use_full` (same condition)",
